@@ -213,8 +213,14 @@ ObsFinal(o, ev) ==
       pip == \E i \in 1..(n - 1) : o.txs[i + 1].qstartpos > 0 /\ (o.txs[i].sstartpos = 0 \/ o.txs[i + 1].qstartpos < o.txs[i].sstartpos)
       wf == o.cfg.wf /\ ~o.faulted
       v == IF wf /\ ev.pipelined # pip THEN {V("C04:PipelinedIff", IF pip THEN "missing" ELSE "spurious", -1)} ELSE {}
-      vPair == IF wf /\ o.cfg.ids /\ ~o.cfg.autod /\ Len(ev.txs) # o.cfg.n THEN {V("C04:CountIsN", "reported", -1)} ELSE {}
-  IN Add(o, v \cup vPair)
+      vPair == IF wf /\ o.cfg.ids /\ ~o.cfg.autod /\ ~ev.light /\ Len(ev.txs) # o.cfg.n THEN {V("C04:CountIsN", "reported", -1)} ELSE {}
+      \* C10 caps scenarios (tools/c10.py caps): one-byte values "v" repeated 200 times must stop being combined after the first repeat plus
+      \* HTP_MAX_HEADERS_REPETITIONS = 64 more (66 pieces joined with ", " = 196 bytes); a header folded over 130 lines of 1001 bytes must stop
+      \* growing once it has reached HTP_MAX_HEADER_FOLDED = 102400 (so it stays below that plus one line)
+      vCaps == IF o.cfg.cls = "caps-rep" /\ (ev.maxqv > 196 \/ ev.maxsv > 196) THEN {V("C10:HeaderCaps", "repeated", -1)}
+               ELSE IF o.cfg.cls = "caps-fold" /\ (ev.maxqv > 102400 + 1010 \/ ev.maxsv > 102400 + 1010) THEN {V("C10:HeaderCaps", "folded", -1)}
+               ELSE {}
+  IN Add(o, v \cup vPair \cup vCaps)
 
 ObsReset(ev) == [ObsInit EXCEPT !.cfg = ev.cfg, !.run = ev.run]
 
